@@ -581,6 +581,54 @@ def meta_block_range(repo):
 VERUS_LIFTS["meta_block"] = meta_block_range
 
 
+# ---------------------------------------------------------------------------
+# GLR lookahead search (C06 / C12 / C15): GlrParser::find_lookaheads from `let expected_tokens = ..` to its end -- everything
+# after `let head = gss.head_mut(head);` (GssGraph wraps a petgraph Graph, a type this single-file unit cannot even name).
+
+GLRLA_DECLARED = ["head", "input", "self"]
+
+
+def glr_lookaheads_block_range(repo):
+    rel = "rustemo/src/glr/parser.rs"
+    src = rsx.Source(os.path.join(repo, rel))
+    imp = src.find_impl(r"^impl < 'i , S , L , P , TK , NTK , D , I , B > GlrParser", has="find_lookaheads")
+    fn = imp.child("fn", "find_lookaheads")
+    t = src.toks
+    sig = "".join(x.text for x in t[fn.kw:fn.body_open] if x.kind not in ("ws", "comment"))
+    if sig != "fnfind_lookaheads(&self,gss:&mutGssGraph<'i,I,S,P,TK>,head:NodeIndex,input:&'iI,)->Vec<Token<'i,I,TK>>":
+        raise ExtractError("glr lookaheads block: signature of find_lookaheads changed: %r" % sig)
+    first = "".join(x.text for x in t[fn.body_open + 1:fn.body_open + 20] if x.kind not in ("ws", "comment"))
+    if not first.startswith("lethead=gss.head_mut(head);letexpected_tokens"):
+        raise ExtractError("glr lookaheads block: the first statements of find_lookaheads changed: %r" % first[:80])
+    lo = next(i for i in range(fn.body_open + 1, fn.body_close) if t[i].text == ";") + 1
+    lo = src.sig(lo)
+    hi = fn.body_close
+    block_text = src.text[t[lo].s:t[hi].s]
+    used = set(idents(src, lo, hi))
+    if "gss" in used:
+        raise ExtractError("glr lookaheads block: the range mentions gss")
+    outside = bound_names_outside(src, fn, lo, hi)
+    inside = bound_names_inside(src, lo, hi)
+    free = sorted(((outside & used) - inside) | ({"self"} if "self" in used else set()))
+    if free != GLRLA_DECLARED:
+        raise ExtractError(f"glr lookaheads block: free variables changed: now {free}, declared {GLRLA_DECLARED}")
+    head = src.text[t[imp.start].s:t[imp.body_open].s]
+    m = re.match(r"\s*impl\s*(<[^>]*>)\s*(GlrParser\s*<[^>]*>)\s*where(.*)$", head, re.S)
+    if not m:
+        raise ExtractError("glr lookaheads block: unexpected impl header shape")
+    generics, self_ty, where = m.group(1), m.group(2), m.group(3).rstrip()
+    sha = hashlib.sha256(block_text.encode()).hexdigest()[:16]
+    meta = {"lift": "glr_lookaheads_block", "file": rel, "lines": [src.line_of(t[lo].s), src.line_of(t[hi].s)], "sha256_16": sha, "free_variables": GLRLA_DECLARED,
+            "note": "the body of GlrParser::find_lookaheads after its first statement `let head = gss.head_mut(head);` (pinned): `head` is that local, a `&mut GssHead`, "
+                    "and a parameter of the same type here; `gss` (a GssGraph over a petgraph Graph) is not mentioned by the range"}
+    header = ("impl%s %s\nwhere%s\n{\n    fn glr_lookaheads_block(\n        &self,\n        head: &mut GssHead<'i, I, S, TK>,\n        input: &'i I,\n"
+              "    ) -> Vec<Token<'i, I, TK>> {\n        ") % (generics, self_ty, where)
+    return header + block_text + "}\n}\n", meta
+
+
+VERUS_LIFTS["glr_lookaheads_block"] = glr_lookaheads_block_range
+
+
 def lift_conflict_block(repo, gen):
     block_text, then_body, meta = conflict_block_range(repo)
     rel, declared, sha = meta["file"], meta["free_variables"], meta["sha256_16"]
